@@ -1,6 +1,7 @@
 import SfntV.Prelude.Bytes
 import SfntV.Model.T2Interp
 import SfntV.Model.T2Encode
+import SfntV.Model.T2Compile
 
 /-! Line-protocol handlers for the Type 2 interpreter (C05) -/
 namespace SfntV.Drive.T2
@@ -108,6 +109,78 @@ def firstDiff : Nat → List Cmd → List InCmd → Option Nat
       | some i => s!"diff:cmd@{i}"
       | none => "ok"
 
+/-! #### C04: encodeArgs, edge proposals, assembly -/
+
+def toIn : InCmd → Option T2Enc.InCmd
+  | .pts 'm' [x, y] => some (.moveTo x y)
+  | .pts 'l' [x, y] => some (.lineTo x y)
+  | .pts 'c' [a, b, c, d, e, f] => some (.curveTo a b c d e f)
+  | .mask c bs => some (.mask c bs)
+  | _ => none
+
+def parseCmds (fs : List (String × String)) : Option (List T2Enc.InCmd) :=
+  (getField fs "cmds").bind fun s =>
+    if s.isEmpty then some [] else (s.splitOn ";").mapM (fun c => parseInCmd c >>= toIn)
+
+def showNum (e : T2Enc.EncNum) : String := s!"{e.val}/{hexNats e.code}"
+
+def showEnCmd : T2Enc.EnCmd → String
+  | .move dx dy => s!"m:{showNum dx},{showNum dy}"
+  | .seg s => (match s with | .line _ _ => "l:" | .curve .. => "c:") ++ ",".intercalate (s.args.map showNum)
+  | .mask c bs => (if c then "k:" else "h:") ++ hexNats bs
+
+def showEdge (e : T2Enc.Edge) : String := s!"{e.to}/{hexNats e.bytes}"
+
+/-- all runs of drawing segments of an encoded command list -/
+def runsOf : Nat → List T2Enc.EnCmd → List (List T2Enc.Seg)
+  | 0, _ => []
+  | _, [] => []
+  | f + 1, .seg s :: rest =>
+    let r := T2Enc.takeSegs (.seg s :: rest)
+    r.1 :: runsOf f r.2
+  | f + 1, _ :: rest => runsOf f rest
+
+def showRunEdges (ri : Nat) (segs : List T2Enc.Seg) : List String :=
+  (List.range segs.length).map fun i =>
+    s!"{ri}.{i}=" ++ ",".intercalate ((T2Enc.appendEdges i (segs.drop i)).map showEdge)
+
+def enumFrom' {α : Type} : Nat → List α → List (Nat × α)
+  | _, [] => []
+  | i, a :: t => (i, a) :: enumFrom' (i + 1) t
+
+def parsePath (s : String) : Option (List (Nat × Op)) :=
+  if s.isEmpty then some [] else
+  (s.splitOn ",").mapM fun e =>
+    match e.splitOn "." with
+    | [t, o] => do
+      let t ← t.toNat?
+      let o ← o.toNat?
+      let op ← opOfCode o
+      pure (t, op)
+    | _ => none
+
+def parsePaths (s : String) : Option (List (List (Nat × Op))) :=
+  if s.isEmpty then some [] else (s.splitOn "/").mapM parsePath
+
+@[noinline] def compileOps (op : String) (fs : List (String × String)) : String :=
+  match parseCmds fs with
+  | none => "bad-case"
+  | some cmds =>
+    let K := 20
+    if op == "t2.encargs" then ";".intercalate ((T2Enc.encodeArgs K cmds).map showEnCmd)
+    else if op == "t2.edges" then
+      let ee := T2Enc.encodeArgs K cmds
+      ";".intercalate ((enumFrom' 0 (runsOf (ee.length + 1) ee)).flatMap fun p => showRunEdges p.1 p.2)
+    else
+      match getField fs "w" >>= parseInt?, getField fs "dw" >>= parseInt?, getField fs "nw" >>= parseInt?,
+            getField fs "hs" >>= parseIntList, getField fs "vs" >>= parseIntList,
+            getField fs "paths" >>= parsePaths with
+      | some w, some dw, some nw, some hs, some vs, some paths =>
+        match T2Enc.encodeCharString K w hs vs cmds dw nw paths with
+        | some b => hexNats b
+        | none => "none"
+      | _, _, _, _, _, _ => "bad-case"
+
 def handleC04 (op : String) (fs : List (String × String)) : String :=
   if op == "t2.encnum" then
     match getField fs "n" >>= parseInt?, getField fs "k" >>= String.toNat? with
@@ -128,6 +201,7 @@ def prefixes : List String := ["t2."]
 
 def handle (op : String) (fs : List (String × String)) : String :=
   if op == "t2.encnum" || op == "t2.rt" then handleC04 op fs
+  else if op == "t2.encargs" || op == "t2.edges" || op == "t2.asm" then compileOps op fs
   else if op == "t2.dec" || op == "t2.spec" || op == "t2.rejects" || op == "t2.taint" then
     match parseEnv fs, getField fs "code" >>= hexToNats with
     | some env, some code =>
